@@ -12,6 +12,8 @@ import OFV.Proofs.C19Cost
 import OFV.Proofs.C19LambdaFinal
 import OFV.Proofs.C19LambdaOracle
 import OFV.Proofs.C19MolId
+import OFV.Proofs.C19MolOracle
+import OFV.Proofs.C19Phys
 import OFV.Proofs.C19Mono
 
 namespace OFV.C19
@@ -170,6 +172,18 @@ theorem qi2_global_minimiser (L1 L2 : Nat) (h1 : L1 ≤ 2 ^ 16) (h2 : L2 ≤ 2 ^
 example : (qr2 100 37 7).2.2 ≤ qr2Value 100 37 7 20 3 :=
   qr2_global_minimiser 100 37 7 (by norm_num) (by norm_num) 20 3 (by norm_num) (by norm_num)
 
+/-! ### `cost_estimator` (surface-code physical costing): the deterministic part -/
+
+/-- **Selection loop of `cost_estimator`**: given the candidate layouts `(physical qubits, rounds)` in loop order and
+which of them pass the failure-probability filter, the loop returns `None` iff none passes; otherwise a feasible
+candidate whose `qubits × rounds` is minimal among the feasible ones and strictly smaller than that of every earlier
+feasible candidate (first strict minimum).  The candidate table itself (`Model.C19.candidates`: factory dimensions,
+footprints, rounds, storage area) is integer / rational arithmetic compared exactly with the implementation on every
+candidate; only the failure probabilities (irrational powers) stay outside the Model. -/
+theorem cost_estimator_select_spec (cands : List (Nat × Nat)) (feasible : List Bool) :
+    selectOk cands feasible (Model.C19.selectBest cands feasible) = true :=
+  OFV.Proofs.C19Ph.selectBest_ok cands feasible
+
 /-! ### `lambda_norm` and the Jordan-Wigner image -/
 
 /-- **`lambda_norm` is the 1-norm of the non-identity Jordan-Wigner coefficients** — every size `n`, every real
@@ -258,6 +272,28 @@ theorem one_norm_identity_coefficient (const : Rat) (h : List (List Rat)) (g : L
         = ((2 ^ (2 * h.length) : Nat) : GQ) * (⟨c, 0⟩ : GQ)
       ∧ oneNorm const h g = Model.C19.rabs c + oneNormWoConst h g :=
   ⟨OFV.C19P.htildeF h.length const h g, OFV.C19P.mol_trace h.length const h g, OFV.C19P.oneNorm_split const h g⟩
+
+/-- **`one_norm_spec`, restricted to Coulomb-type ("density-density") two-body integrals** — every number `n` of
+spatial orbitals, every real symmetric `h`, every `g` with `g_pqrs = 0` unless `s = p` and `r = q` and
+`g_pqqp = g_qppq` (this class contains the one-body-only case `g = 0`, and for `n = 1` every `g`): the Model of
+`get_one_norm_int_woconst` equals the Spec oracle `jwOneNorm` — the 1-norm of the non-identity coefficients of the
+Pauli decomposition, computed from the Spec ladder action on all `4^n` Fock states — of the molecular Hamiltonian
+`molOp n const h g`.  Proof: for such integrals `molOp` has the matrix elements of the spin-orbital
+DiagonalCoulombHamiltonian with `T = h ⊗ 1`, `V[(pσ),(qτ)] = ½ g_pqqp`, to which `lambda_norm_oracle` /
+`pauli_decomposition_unique` apply, and `lambda_norm` of these matrices and `get_one_norm_int_woconst` reduce to the
+same normal form.  Hypothesis: the exact-run flag of the Model Jordan-Wigner transform on these matrices (evaluated by
+the driver, `c19.spec.mol_coulomb`).
+MISSING for the full `one_norm_spec`: exchange-type integrals `g_pqpq` and general three- / four-index integrals (the
+`X Z…Z X` strings with an extra or missing `Z` and the four-letter strings of `jordan_wigner_two_body`). -/
+theorem one_norm_spec_partial (tol : Rat) (n : Nat) (const : Rat) (h : List (List Rat))
+    (g : List (List (List (List Rat)))) (hn : h.length = n)
+    (hsupp : ∀ p q r s, ¬ (s = p ∧ r = q) → m4 g p q r s = 0)
+    (symH : ∀ p q, p < n → q < n → m2 h q p = m2 h p q)
+    (symJ : ∀ p q, p < n → q < n → m4 g q p p q = m4 g p q q p)
+    (hok : Model.C04.jwDCHOk tol (2 * n) (⟨const, 0⟩ : GQ) (flatReal (2 * n) (spinOne n h))
+      (flatReal (2 * n) (spinCoulomb n g)) = true) :
+    jwOneNorm (2 * n) (molOp n const h g) false = some (oneNormWoConst h g) :=
+  OFV.C19Jw.oneNormWoConst_eq_oracle tol n const h g hn hsupp symH symJ hok
 
 /-- `lambda_norm_spec` in the form the driver evaluates (`c19.spec.dch_pauli_norm`): the matrices are flattened by
 `Spec.C19.flatReal`, the threshold is the extracted `EQ_TOLERANCE`; the driver reports `jwDCHOk` and the 1-norm
